@@ -51,35 +51,35 @@ Proof.
 Qed.
 
 (* ------------------------------------------------------------------ thaw / skeleton *)
-Definition thaw_obj (ob : obj) : obj := mkObj (okind ob) (oattrs ob) (onitems ob) false [].
-Definition thaw (st : state) : state := mkState (map thaw_obj (heap st)) (inflight st).
+Definition thaw_obj (ob : obj) : obj := mkObj (okind ob) (oattrs ob) (onitems ob) (oidn ob) false [].
+Definition thaw (st : state) : state := mkState (map thaw_obj (heap st)) (inflight st) (ptab st).
 
 (* everything except caches *)
-Definition skel_obj (ob : obj) := (okind ob, oattrs ob, onitems ob, ofrozen ob).
-Definition skel (st : state) := (map skel_obj (heap st), inflight st).
+Definition skel_obj (ob : obj) := (okind ob, oattrs ob, onitems ob, oidn ob, ofrozen ob).
+Definition skel (st : state) := (map skel_obj (heap st), inflight st, ptab st).
 
 Lemma get_thaw : forall st o, get (thaw st) o = option_map thaw_obj (get st o).
 Proof. intros. unfold get, thaw. simpl. apply nth_error_map. Qed.
 
 Lemma thaw_thaw : forall st, thaw (thaw st) = thaw st.
 Proof.
-  intros [h i]. unfold thaw. simpl. f_equal. rewrite map_map. apply map_ext. intros []. reflexivity.
+  intros [h i pt]. unfold thaw. simpl. f_equal. rewrite map_map. apply map_ext. intros []. reflexivity.
 Qed.
 
 Lemma skel_thaw : forall st1 st2, skel st1 = skel st2 -> thaw st1 = thaw st2.
 Proof.
-  intros [h1 i1] [h2 i2]. unfold skel, thaw. simpl. intros H. injection H as H1 H2. subst i2. f_equal.
+  intros [h1 i1 p1] [h2 i2 p2]. unfold skel, thaw. simpl. intros H. injection H as H1 H2 H3. subst i2 p2. f_equal.
   revert h2 H1. induction h1 as [|a h1 IH]; intros [|b h2] H; simpl in *; try discriminate; auto.
-  injection H as E1 E2 E3 E4 Hr. f_equal; auto. unfold thaw_obj. now rewrite E1, E2, E3.
+  injection H as E1 E2 E3 E4 E5 Hr. f_equal; auto. unfold thaw_obj. now rewrite E1, E2, E3, E4.
 Qed.
 
 Lemma skel_get : forall st1 st2 o ob1, skel st1 = skel st2 -> get st1 o = Some ob1 ->
   exists ob2, get st2 o = Some ob2 /\ skel_obj ob2 = skel_obj ob1.
 Proof.
-  intros st1 st2 o ob1 H G. unfold skel in H. injection H as H1 H2.
+  intros st1 st2 o ob1 H G. unfold skel in H. injection H as H1 H2 H3.
   unfold get in *. assert (E : nth_error (map skel_obj (heap st1)) o = Some (skel_obj ob1)) by (now apply map_nth_error).
   rewrite H1 in E. rewrite nth_error_map in E. destruct (nth_error (heap st2) o) as [ob2|]; simpl in E; [|discriminate].
-  exists ob2. split; auto. injection E as E1 E2 E3 E4. unfold skel_obj. congruence.
+  exists ob2. split; auto. injection E as E1 E2 E3 E4 E5. unfold skel_obj. congruence.
 Qed.
 
 Lemma view_thaw : forall st o, view (thaw st) o = view st o.
@@ -92,10 +92,10 @@ Proof.
   pose proof (H (k, v) (or_introl eq_refl)) as E. simpl in E. rewrite E. destruct (g v); auto. f_equal. apply IH. intros kv Hin. apply H. now right.
 Qed.
 
-Lemma walk_val_thaw : forall st n s v, walk_val (thaw st) n s v = walk_val st n s v.
+Lemma walk_val_thaw : forall st n s vis v, walk_val (thaw st) n s vis v = walk_val st n s vis v.
 Proof.
-  intros st n. induction n as [|n IH]; intros s v; destruct v as [p|c|o]; simpl; auto.
-  destruct (memb o (inflight st)); auto. rewrite get_thaw. destruct (get st o) as [ob|]; simpl; auto.
+  intros st n. induction n as [|n IH]; intros s vis v; destruct v as [p|c|o]; simpl; auto.
+  destruct (memb o (inflight st) || memb o vis); auto. rewrite get_thaw. destruct (get st o) as [ob|]; simpl; auto.
   destruct (sel_obj s (okind ob)); auto. f_equal. f_equal. apply walk_list_ext. intros kv _. apply IH.
 Qed.
 
@@ -137,11 +137,11 @@ Definition p_attr (st : state) (o : nat) (s : sel) : res cval :=
   else Exn EAttribute.
 Definition p_unique (st : state) (o : nat) : res cval :=
   if has_obj st o then
-    rbind (p_attr st o SPrior) (fun c => rbind (r_list c) (fun l => Ok (CList (dedup_last l))))
+    rbind (p_attr st o SPrior) (fun c => rbind (r_list c) (fun l => Ok (CList (dedup_last (pid_of st) l))))
   else Exn EAttribute.
 Definition p_ordered (st : state) (o : nat) : res cval :=
   if has_obj st o then
-    rbind (p_unique st o) (fun c => rbind (r_list c) (fun l => Ok (CList (sort_by item_pid_le l))))
+    rbind (p_unique st o) (fun c => rbind (r_list c) (fun l => Ok (CList (sort_by (item_id_le (pid_of st)) l))))
   else Exn EAttribute.
 Definition p_direct (st : state) (o : nat) (d : dsel) : res cval :=
   match get st o with
@@ -200,8 +200,12 @@ Lemma p_pit_thaw : forall st o s, p_pit (thaw st) o s = p_pit st o s.
 Proof. intros. unfold p_pit. now rewrite has_obj_thaw, walk_top_thaw. Qed.
 Lemma p_attr_thaw : forall st o s, p_attr (thaw st) o s = p_attr st o s.
 Proof. intros. unfold p_attr. now rewrite has_obj_thaw, p_pit_thaw. Qed.
+Lemma pid_of_thaw : forall st, pid_of (thaw st) = pid_of st.
+Proof. reflexivity. Qed.
+Lemma plim_of_thaw : forall st, plim_of (thaw st) = plim_of st.
+Proof. reflexivity. Qed.
 Lemma p_unique_thaw : forall st o, p_unique (thaw st) o = p_unique st o.
-Proof. intros. unfold p_unique. now rewrite has_obj_thaw, p_attr_thaw. Qed.
+Proof. intros. unfold p_unique. now rewrite has_obj_thaw, p_attr_thaw, pid_of_thaw. Qed.
 Lemma p_count_thaw : forall st o, p_count (thaw st) o = p_count st o.
 Proof. intros. unfold p_count. now rewrite p_unique_thaw. Qed.
 Lemma p_mtt_thaw : forall st o c z, p_mtt (thaw st) o c z = p_mtt st o c z.
@@ -222,7 +226,7 @@ Lemma pure_key_thaw : forall st o k, pure_key (thaw st) o k = pure_key st o k.
 Proof.
   intros st o k.
   destruct k; cbn [pure_key]; [apply p_pit_thaw|apply p_attr_thaw|apply p_unique_thaw| | |apply p_mtt_thaw|].
-  - unfold p_ordered. now rewrite has_obj_thaw, p_unique_thaw.
+  - unfold p_ordered. now rewrite has_obj_thaw, p_unique_thaw, pid_of_thaw.
   - unfold p_direct. rewrite get_thaw. destruct (get st o); simpl; auto. now rewrite direct_items_thaw.
   - unfold p_mwt. now rewrite has_obj_thaw, p_mtt_thaw.
 Qed.
@@ -247,7 +251,7 @@ Qed.
 Lemma call_unique_thaw : forall st o, call_unique o (thaw st) = (thaw st, p_unique st o).
 Proof.
   intros. unfold call_unique. rewrite cached_thaw. unfold p_unique. destruct (has_obj st o); [|reflexivity].
-  unfold body_unique, bind. rewrite call_attr_thaw. destruct (p_attr st o SPrior) as [[l|]|e]; reflexivity.
+  unfold body_unique, bind, gets. rewrite call_attr_thaw. destruct (p_attr st o SPrior) as [[l|]|e]; reflexivity.
 Qed.
 Lemma q_count_thaw : forall st o, q_count o (thaw st) = (thaw st, p_count st o).
 Proof.
@@ -280,7 +284,7 @@ Proof.
   intros st o k.
   destruct k; cbn [pure_key call_key]; [apply call_pit_thaw|apply call_attr_thaw|apply call_unique_thaw| | |apply call_mtt_thaw|].
   - unfold call_ordered. rewrite cached_thaw. unfold p_ordered. destruct (has_obj st o); [|reflexivity].
-    unfold body_ordered, bind. rewrite call_unique_thaw. destruct (p_unique st o) as [[l|]|e]; reflexivity.
+    unfold body_ordered, bind, gets. rewrite call_unique_thaw. destruct (p_unique st o) as [[l|]|e]; reflexivity.
   - unfold call_direct. rewrite cached_thaw. unfold p_direct, has_obj.
     destruct (get st o) eqn:G; [|reflexivity]. unfold body_direct, gets. rewrite get_thaw, G. cbn [option_map].
     now rewrite direct_items_thaw.
@@ -345,7 +349,7 @@ Proof. intros. unfold get, put. simpl. now apply nth_error_update_neq. Qed.
 
 Lemma skel_put_cache : forall st o ob c, get st o = Some ob -> skel (put st o (with_cache ob c)) = skel st.
 Proof.
-  intros st o ob c G. unfold skel, put. simpl. f_equal. rewrite map_update.
+  intros st o ob c G. unfold skel, put. simpl. f_equal. f_equal. rewrite map_update.
   change (skel_obj (with_cache ob c)) with (skel_obj ob).
   apply update_same. unfold get in G. now apply map_nth_error.
 Qed.
@@ -408,14 +412,16 @@ Lemma Coh_call_unique : forall o, Coh (call_unique o).
 Proof.
   intros. unfold call_unique. apply Coh_cached; [|reflexivity].
   unfold body_unique. apply Coh_bind; [apply Coh_call_attr|]. intros c.
-  apply Coh_bind; [apply Coh_as_list|]. intros l. apply Coh_ret.
+  apply Coh_bind; [apply Coh_as_list|]. intros l.
+  apply Coh_bind; [apply Coh_gets; intros; apply pid_of_thaw|]. intros idf. apply Coh_ret.
 Qed.
 
 Lemma Coh_call_ordered : forall o, Coh (call_ordered o).
 Proof.
   intros. unfold call_ordered. apply Coh_cached; [|reflexivity].
   unfold body_ordered. apply Coh_bind; [apply Coh_call_unique|]. intros c.
-  apply Coh_bind; [apply Coh_as_list|]. intros l. apply Coh_ret.
+  apply Coh_bind; [apply Coh_as_list|]. intros l.
+  apply Coh_bind; [apply Coh_gets; intros; apply pid_of_thaw|]. intros idf. apply Coh_ret.
 Qed.
 
 Lemma Coh_call_direct : forall o d, Coh (call_direct o d).
@@ -455,21 +461,36 @@ Proof.
   intros. unfold q_models. apply Coh_bind; [apply Coh_call_mwt|]. intros cv. apply Coh_as_list.
 Qed.
 
+Lemma Coh_pid : Coh (gets pid_of).
+Proof. apply Coh_gets. intros. apply pid_of_thaw. Qed.
+Lemma Coh_plim : Coh (gets plim_of).
+Proof. apply Coh_gets. intros. apply plim_of_thaw. Qed.
+
+Lemma Coh_q_paths_raw : forall o, Coh (q_paths_raw o).
+Proof.
+  intros. unfold q_paths_raw. apply Coh_bind; [apply Coh_call_pit|]. intros c.
+  apply Coh_bind; [apply Coh_as_list|]. intros l. apply Coh_bind; [apply Coh_pid|]. intros; apply Coh_ret.
+Qed.
 Lemma Coh_q_paths : forall o, Coh (q_paths o).
 Proof.
-  intros. unfold q_paths. apply Coh_bind; [apply Coh_call_pit|]. intros c.
-  apply Coh_bind; [apply Coh_as_list|]. intros l. apply Coh_ret.
+  intros. unfold q_paths. apply Coh_bind; [apply Coh_q_paths_raw|]. intros l.
+  apply Coh_bind; [apply Coh_pid|]. intros; apply Coh_ret.
 Qed.
 
+Lemma Coh_q_ordered_raw : forall o, Coh (q_ordered_raw o).
+Proof.
+  intros. unfold q_ordered_raw. apply Coh_bind; [apply Coh_call_ordered|]. intros c. apply Coh_as_list.
+Qed.
 Lemma Coh_q_ordered : forall o, Coh (q_ordered o).
 Proof.
-  intros. unfold q_ordered. apply Coh_bind; [apply Coh_call_ordered|]. intros c. apply Coh_as_list.
+  intros. unfold q_ordered. apply Coh_bind; [apply Coh_q_ordered_raw|]. intros l.
+  apply Coh_bind; [apply Coh_pid|]. intros; apply Coh_ret.
 Qed.
 
-Lemma Coh_arg_for : forall a p, Coh (arg_for a p).
-Proof. intros. unfold arg_for. destruct (nassoc p a); [apply Coh_ret|apply Coh_raise]. Qed.
+Lemma Coh_arg_for : forall idf a p, Coh (arg_for idf a p).
+Proof. intros. unfold arg_for. destruct (nassoc (idf p) a); [apply Coh_ret|apply Coh_raise]. Qed.
 
-Lemma Coh_tuple_values : forall a t, Coh (tuple_values a t).
+Lemma Coh_tuple_values : forall idf a t, Coh (tuple_values idf a t).
 Proof.
   intros. unfold tuple_values. apply Coh_bind.
   - apply Coh_gets. intros. apply view_thaw.
@@ -481,9 +502,9 @@ Qed.
 Lemma is_pm_thaw : forall st c, is_pm (thaw st) c = is_pm st c.
 Proof. intros. unfold is_pm. now rewrite view_thaw. Qed.
 
-Lemma Coh_inst_for : forall cfg n a o, Coh (inst_for cfg n a o).
+Lemma Coh_inst_for : forall cfg n idf a o, Coh (inst_for cfg n idf a o).
 Proof.
-  intros cfg n. induction n as [|n IH]; intros a o; simpl; [apply Coh_raise|].
+  intros cfg n idf. induction n as [|n IH]; intros a o; simpl; [apply Coh_raise|].
   apply Coh_bind; [apply Coh_gets; intros; apply view_thaw|].
   intros [[[cls| |] attrs]|]; [| |apply Coh_ret|apply Coh_raise].
   - apply Coh_bind; [apply Coh_call_direct|]. intros tc.
@@ -514,8 +535,28 @@ Lemma Coh_q_instance : forall cfg o vec, Coh (q_instance cfg o vec).
 Proof.
   intros. unfold q_instance. apply Coh_bind; [apply Coh_q_count|]. intros n.
   destruct (negb _); [apply Coh_raise|].
-  apply Coh_bind; [apply Coh_q_ordered|]. intros l.
+  apply Coh_bind; [apply Coh_q_ordered_raw|]. intros l.
+  apply Coh_bind; [apply Coh_pid|]. intros idf. apply Coh_bind; [apply Coh_plim|]. intros limf.
   destruct (negb _); [apply Coh_raise|apply Coh_inst_for].
+Qed.
+
+Lemma Coh_q_unit : forall cfg o qs, Coh (q_unit cfg o qs).
+Proof.
+  intros. unfold q_unit. apply Coh_bind; [apply Coh_call_attr|]. intros ec.
+  apply Coh_bind; [apply Coh_as_list|]. intros _.
+  apply Coh_bind; [apply Coh_q_count|]. intros n.
+  destruct (negb _); [apply Coh_raise|].
+  apply Coh_bind; [apply Coh_q_ordered_raw|]. intros l.
+  apply Coh_bind; [apply Coh_pid|]. intros idf. apply Coh_bind; [apply Coh_plim|]. intros limf.
+  apply Coh_inst_for.
+Qed.
+
+Lemma Coh_q_allpaths : forall o, Coh (q_allpaths o).
+Proof.
+  intros. unfold q_allpaths. apply Coh_bind; [apply Coh_q_count|]. intros n.
+  destruct (Nat.eqb n 0); [apply Coh_ret|].
+  apply Coh_bind; [apply Coh_q_paths_raw|]. intros l. apply Coh_bind; [apply Coh_pid|]. intros idf.
+  destruct (fold_left _ l []); [apply Coh_raise|apply Coh_ret].
 Qed.
 
 Lemma Coh_param_entry : forall o pre, Coh (param_entry o pre).
@@ -536,9 +577,10 @@ Proof.
   apply Coh_bind; [apply Coh_q_count|]. intros n.
   apply Coh_bind; [apply Coh_call_pit|]. intros pc.
   apply Coh_bind; [apply Coh_as_list|]. intros pl.
-  apply Coh_bind; [|intros; apply Coh_ret].
-  apply Coh_mapM. intros it _. apply Coh_bind; [|intros; apply Coh_ret].
-  apply Coh_mapM. intros pre _. apply Coh_param_entry.
+  apply Coh_bind.
+  - apply Coh_mapM. intros it _. apply Coh_bind; [|intros; apply Coh_ret].
+    apply Coh_mapM. intros pre _. apply Coh_param_entry.
+  - intros ents. apply Coh_bind; [apply Coh_pid|]. intros; apply Coh_ret.
 Qed.
 
 Theorem Coh_run_query : forall cfg o q, Coh (run_query cfg o q).
@@ -550,4 +592,6 @@ Proof.
   - apply Coh_bind; [apply Coh_q_instance|]. intros; apply Coh_ret.
   - apply Coh_q_info.
   - apply Coh_bind; [apply Coh_q_models|]. intros; apply Coh_ret.
+  - apply Coh_bind; [apply Coh_q_unit|]. intros; apply Coh_ret.
+  - apply Coh_q_allpaths.
 Qed.
